@@ -241,6 +241,35 @@ fn map_exits<K: Elem, V: Elem>(c: &mut Ctx, spec: &Spec, rng: &mut Rng) {
         }
     }
     let _ = bh;
+    // last, because it may legitimately leak: a Drain that is mem::forget-ten after `cut` elements. What the forgotten
+    // drain still owned may never be dropped, but nothing may be dropped twice: the elements already handed to the caller
+    // are the caller's alone, also after the collection has been used again, cleared and dropped.
+    if !crate::util::slow_lane() || rng.chance(1, 4) {
+        let cut = rng.usize_below(len + 1);
+        let what = format!("HashMap<{},{}> [{}] exit drain_forget cut {}", K::NAME, V::NAME, spec.describe(), cut);
+        c.sig_parts(&[90, f.class as u64, (cut == 0) as u64 + 2 * (cut == len) as u64, crate::ctx::prop_salt(K::NAME)]);
+        c.leak_ok = true;
+        let mut m: MapC<K, V> = build(spec);
+        let mut d = m.0.drain();
+        let mut held = Vec::new();
+        for _ in 0..cut {
+            if let Some(kv) = d.next() {
+                held.push(kv);
+            }
+        }
+        std::mem::forget(d);
+        m.0.insert(K::make(77 % K::ID_SPACE, 9), V::make(9 % V::ID_SPACE, 9));
+        let _ = m.0.get(&KeyRef(77 % K::ID_SPACE));
+        m.0.clear();
+        drop(m);
+        for (k, v) in &held {
+            k.check();
+            v.check();
+        }
+        drop(held);
+        c.evaluations += 1;
+        c.bump("forgotten_drains");
+    }
 }
 
 fn set_exits<T: Elem>(c: &mut Ctx, spec: &Spec, rng: &mut Rng) {
@@ -334,6 +363,33 @@ fn set_exits<T: Elem>(c: &mut Ctx, spec: &Spec, rng: &mut Rng) {
             settle(c, &what);
         }
     }
+    // a forgotten Drain (see map_exits): leaks are permitted, double drops are not
+    {
+        let cut = rng.usize_below(len + 1);
+        let what = format!("HashSet<{}> [{}] exit drain_forget cut {}", T::NAME, spec.describe(), cut);
+        c.sig_parts(&[190, f.class as u64, (cut == 0) as u64 + 2 * (cut == len) as u64]);
+        c.leak_ok = true;
+        let mut s: SetC<T> = build(spec);
+        let mut d = s.0.drain();
+        let mut held = Vec::new();
+        for _ in 0..cut {
+            if let Some(x) = d.next() {
+                held.push(x);
+            }
+        }
+        std::mem::forget(d);
+        s.0.insert(T::make(77 % T::ID_SPACE, 9));
+        let _ = s.0.contains(&KeyRef(77 % T::ID_SPACE));
+        s.0.clear();
+        drop(s);
+        for x in &held {
+            x.check();
+        }
+        drop(held);
+        let _ = &what;
+        c.evaluations += 1;
+        c.bump("forgotten_drains");
+    }
 }
 
 fn table_exits<E: Elem>(c: &mut Ctx, spec: &Spec, rng: &mut Rng) {
@@ -414,6 +470,31 @@ fn table_exits<E: Elem>(c: &mut Ctx, spec: &Spec, rng: &mut Rng) {
             drop(t);
             settle(c, &what);
         }
+    }
+    // a forgotten Drain (see map_exits): leaks are permitted, double drops are not
+    {
+        let cut = rng.usize_below(len + 1);
+        c.sig_parts(&[290, f.class as u64, (cut == 0) as u64 + 2 * (cut == len) as u64]);
+        c.leak_ok = true;
+        let mut t: TableC<E> = build(spec);
+        let mut d = t.0.drain();
+        let mut held = Vec::new();
+        for _ in 0..cut {
+            if let Some(x) = d.next() {
+                held.push(x);
+            }
+        }
+        std::mem::forget(d);
+        t.put(77 % E::ID_SPACE, 9);
+        let _ = t.has(77 % E::ID_SPACE);
+        t.0.clear();
+        drop(t);
+        for x in &held {
+            x.check();
+        }
+        drop(held);
+        c.evaluations += 1;
+        c.bump("forgotten_drains");
     }
 }
 
